@@ -30,6 +30,34 @@ def ddmin(items, test):
     return items
 
 
+APPENDING = {"leaf", "calc", "proj", "sel", "dedup", "sort", "slice", "chain", "join", "mat", "xfer", "process",
+             }
+REFS = ("t", "l", "r")
+
+
+def remove_renumber(ops, j):
+    """Remove ops[j]; if it appended a pool entry, renumber later references so
+    that they keep pointing at the same relations."""
+    op = ops[j]
+    out = [dict(o) for o in ops[:j]]
+    if op["k"] not in APPENDING:
+        return out + [dict(o) for o in ops[j + 1:]]
+    k = sum(1 for o in ops[:j] if o["k"] in APPENDING)
+    repl = op.get("t", op.get("l", 0))
+    if not isinstance(repl, int) or repl >= k:
+        repl = 0
+    for o in ops[j + 1:]:
+        o = dict(o)
+        for f in REFS:
+            if isinstance(o.get(f), int):
+                if o[f] > k:
+                    o[f] -= 1
+                elif o[f] == k:
+                    o[f] = repl
+        out.append(o)
+    return out
+
+
 def shrink(scenario, fails, budget=400):
     """fails(scenario) -> bool.  Returns a minimised scenario."""
     calls = [0]
@@ -47,9 +75,13 @@ def shrink(scenario, fails, budget=400):
     # 2. one-at-a-time removal (ddmin leftovers)
     i = len(sc["ops"]) - 1
     while i >= 0 and len(sc["ops"]) > 1:
-        cand = sc["ops"][:i] + sc["ops"][i + 1:]
+        cand = remove_renumber(sc["ops"], i)
         if t({**sc, "ops": cand}):
             sc["ops"] = cand
+        else:
+            cand = sc["ops"][:i] + sc["ops"][i + 1:]
+            if t({**sc, "ops": cand}):
+                sc["ops"] = cand
         i -= 1
     # 3. faults
     for i, op in enumerate(sc["ops"]):
